@@ -46,6 +46,8 @@ fn ncfg_configs() -> Vec<Vec<(String, Vec<(String, String)>)>> {
     let d = |k: &str, v: &str| (k.to_string(), v.to_string());
     out.push(vec![("Display Settings".to_string(), vec![d("Gamma", "50"), d("ScreenWidth", "1280"), d("Gamma", "60"), d("Gamma", "")]), ("Empty".to_string(), vec![]), ("Sound Settings".to_string(), vec![d("Gamma", "7"), d("Volume", "100")])]);
     out.push(vec![("A".to_string(), vec![d("k", "1"), d("k", "1"), d("K", "2")])]);
+    // values that contain the separator themselves: only the FIRST tab of a line separates key and value (angle brackets inside a value are outside the domain: the parser classifies any line containing one as a category line)
+    out.push(vec![("Columns".to_string(), vec![d("Layout", "left\tright\tend"), d("Plain", "x"), d("Trailing", "a\t"), d("Tabs", "\t\t")])]);
     out
 }
 fn ncfg_build(cats: &[(String, Vec<(String, String)>)]) -> ConfigFile {
@@ -60,7 +62,7 @@ fn ncfg_view(f: &ConfigFile) -> Vec<(String, Vec<(String, String)>)> {
     f.categories.iter().map(|c| (c.clone(), f.settings.get(c).map(|m| m.keys.clone()).unwrap_or_default())).collect()
 }
 
-//@unit props=C08 label=B tier=quick native=1 fn=cfg::ConfigFile::{from_existing,write_to_buffer,set_value,has_key,has_category} bound="by execution: 32 configurations of 0..4 distinctly named categories with 0..4 key/value lines each (ASCII, spaces, empty values, non-ASCII text, keys duplicated inside one category and across categories), resources/tests/FFXIV.cfg, and for each every set_value on each present key and on one absent key"
+//@unit props=C08 label=B tier=quick native=1 fn=cfg::ConfigFile::{from_existing,write_to_buffer,set_value,has_key,has_category} bound="by execution: 33 configurations of 0..4 distinctly named categories with 0..4 key/value lines each (ASCII, spaces, empty values, non-ASCII text, keys duplicated inside one category and across categories), resources/tests/FFXIV.cfg, and for each every set_value on each present key and on one absent key"
 //@desc write renders CRLF <category> CRLF key TAB value CRLF ... NUL; parsing a written configuration returns the same categories, keys and values in the same order; writing a parsed canonical file reproduces it byte for byte; set_value changes the value of every occurrence of the key and nothing else; has_key / has_category agree with the file's content
 #[test]
 fn native_cfg_roundtrip() {
